@@ -36,6 +36,7 @@ func init() {
 				r.Cov["per_family"] = m.Counts
 				r.Cov["depth_completed"] = m.Counts["depth_completed_min"]
 				r.Cov["exhaustive"] = !m.CapHit
+				attachSecondary(r)
 				r.Assume = []string{
 					"pool DNs are pairwise non-substrings and free of ()*| (the property's precondition)",
 					"values stored through Modify keep their BER octet-string wrapping (pinned by the repository's own suite): a returned value counts as v when it is v or BER(v)",
